@@ -169,6 +169,14 @@ def probe_consistency(D, N, seed):
                 res[f"gradient_sum:{fn_f}:order{m_}"] = abs(got - want) / max(1.0, abs(want)) * scale0
         res["sobolev_RMSE"] = abs(float(M.H1_RMSE(ju, jr, domain_extent=L)) - float(M.fourier_RMSE(ju, jr, domain_extent=L)) -
                                   float(M.fourier_RMSE(ju, jr, domain_extent=L, derivative_order=1)))
+    # every Sobolev metric on every frequency band: the plain Fourier metric on that band plus the Fourier metric of
+    # the first derivative on THE SAME band
+    for nm in ("MAE", "nMAE", "MSE", "nMSE", "RMSE", "nRMSE"):
+        for (lo, hi) in ((None, None), (2, None), (None, 2), (1, 3), (2, 2), (3, max(3, N // 2))):
+            kw = {k_: v_ for k_, v_ in (("low", lo), ("high", hi)) if v_ is not None}
+            h1 = float(getattr(M, "H1_" + nm)(ju, jr, domain_extent=L, **kw))
+            parts = float(getattr(M, "fourier_" + nm)(ju, jr, domain_extent=L, **kw)) + float(getattr(M, "fourier_" + nm)(ju, jr, domain_extent=L, derivative_order=1, **kw))
+            res[f"sobolev_band:H1_{nm}:low={lo}:high={hi}"] = abs(h1 - parts) / max(1.0, abs(parts)) * scale0
     # correlation
     c = float(M.correlation(ju, jr))
     res["corr_range"] = max(0.0, abs(c) - 1.0)
